@@ -119,6 +119,28 @@ pub fn programs() -> Vec<Prog> {
     p.push(Some("f"), Stmt::Not(3, 3));
     p.push(None, Stmt::Ret);
     v.push(Prog::new("jsrr", p, true));
+    // leaves user space upwards: a main routine ending in a bare RET with R7 still at its initial
+    // xFDFF (word there is 0 = a never-taken BR), so PC reaches xFE00
+    let mut p = Program::default();
+    p.push(None, Stmt::Add(1, 1, Src2::Imm(Lit::dec(3))));
+    p.push(Some("loop"), Stmt::Add(1, 1, Src2::Imm(Lit::dec(-1))));
+    p.push(None, Stmt::Br(0b001, "brp".into(), lbl("loop")));
+    p.push(Some("after"), Stmt::Ret);
+    p.push(Some("end"), Stmt::Named(0x25, "halt"));
+    v.push(Prog::new("ret-into-top-of-memory", p, true));
+    // leaves user space downwards, and jumps to the halt sentinel xFFFF without executing HALT
+    let mut p = Program::default();
+    p.items.push(Item::Orig(Lit::hex(0x3100)));
+    p.push(None, Stmt::Add(1, 1, Src2::Imm(Lit::dec(1))));
+    p.push(Some("back"), Stmt::Br(0b001, "brp".into(), Target::Lit(Lit::dec(-3))));
+    p.push(Some("end"), Stmt::Named(0x25, "halt"));
+    v.push(Prog::new("branch-below-origin", p, true));
+    let mut p = Program::default();
+    p.push(None, Stmt::Mem(PcRel::Ld, 2, lbl("g")));
+    p.push(Some("after"), Stmt::Jmp(2));
+    p.push(Some("end"), Stmt::Named(0x25, "halt"));
+    p.push(Some("g"), Stmt::Fill(Lit::hex(0xFFFF)));
+    v.push(Prog::new("jump-to-xFFFF", p, true));
     v
 }
 
@@ -254,6 +276,11 @@ pub fn compare_paused(prog: &Prog, actions: &[&Action], obs: &Obs, d: &Dbg, paus
         other => {
             return Err(Mismatch { sig: format!("dbg/ended-{other:?}/{last_cmd}").replace(' ', ""), what: format!("session ended {other:?}") });
         }
+    }
+    // every command of the script and the final `exit` must have been read: a session that ends on
+    // its own (instead of pausing) silently drops the rest of the script
+    if obs.counters.commands < actions.len() as u64 + 1 {
+        return Err(Mismatch { sig: format!("dbg/{}", ctx("session-ended-instead-of-pausing")), what: format!("the session ended after reading {} of {} commands (PC x{:04x}); the debugger must pause and keep reading", obs.counters.commands, actions.len() + 1, obs.machine.pc) });
     }
     if obs.counters.execs != d.total_executed {
         return Err(Mismatch { sig: format!("dbg/{}", ctx("instruction-count")), what: format!("{} instructions executed by the session, the commands promise {} (PC x{:04x}, reference PC x{:04x})", obs.counters.execs, d.total_executed, obs.machine.pc, d.m.pc) });
